@@ -58,8 +58,10 @@ impl<'a> WireFormat<'a> for CharacterString<'a> {
     where
         Self: Sized,
     {
-        let length = data[*position] as usize;
-        if length > MAX_CHARACTER_STRING_LENGTH || length + *position > data.len() {
+        let length = *data
+            .get(*position)
+            .ok_or(SimpleDnsError::InsufficientData)? as usize;
+        if length > MAX_CHARACTER_STRING_LENGTH || length + *position >= data.len() {
             return Err(SimpleDnsError::InvalidCharacterString);
         }
 
